@@ -29,12 +29,10 @@ CHAR_SIGNED = {"x86_64-sysv": True, "aarch64": False, "riscv64": False}
 
 # defects found by this property and repaired in /repo (known_findings.json, status "fixed"):
 # fold-bool-cast 7c8b86a, fold-addr-swap-segv 536afbc, fold-int-float-double-rounding 0457315,
-# fold-cond-float-unfolded b66d549, literal-overflow-saturates 23c06f0, float-literal-not-rounded 1047c9e.
+# fold-cond-float-unfolded b66d549, literal-overflow-saturates 23c06f0, float-literal-not-rounded 1047c9e,
+# fold-float-neg-fraction-to-unsigned 3037a19.
 # Their witnesses are part
 # of the probe sets below; a regression is an ordinary VIOLATION.
-
-
-FID_NEGFRAC = "fold-float-neg-fraction-to-unsigned"
 
 
 class UB(Exception):
@@ -638,26 +636,6 @@ class Probe:
         self.e, self.dest, self.kind, self.storage, self.tag = e, dest, kind, storage, tag
 
 
-def neg_fraction_class(e, targ):
-    """does the expression convert a floating value in (-1, 0) to an unsigned integer type
-    (defined in C: 0; eval.c tests `f >= 0.0`)?"""
-    try:
-        if isinstance(e, Cast):
-            t, v = e.e.ev(targ)
-            if is_flt(t) and is_int(e.tname) and e.tname != "_Bool" and not signed_of(e.tname, targ) and -1.0 < v < 0.0:
-                return True
-            return neg_fraction_class(e.e, targ)
-        if isinstance(e, Un):
-            return neg_fraction_class(e.e, targ)
-        if isinstance(e, Bin):
-            return neg_fraction_class(e.l, targ) or neg_fraction_class(e.r, targ)
-        if isinstance(e, Cond):
-            return any(neg_fraction_class(x, targ) for x in (e.cnd, e.l, e.r))
-    except UB:
-        pass
-    return False
-
-
 def run_value_probes(ck, cp, probes, targ, what, stats):
     """`T v_i = E;` for every probe: compiler vs model (`expr`) vs reference.  Undefined
     expressions are compared model-vs-compiler only."""
@@ -742,15 +720,8 @@ def run_value_probes(ck, cp, probes, targ, what, stats):
         replay = {"kind": "wrong-fold", "target": targ, "program": prog, "expected": exp[i], "compiler": got,
                   "model": m, "context": what}
         if not ok:
-            if same_mc and got[0] == "rejected" and "cannot be represented as unsigned" in str(got[1]) and \
-                    neg_fraction_class(p.e, targ):
-                ck.report(dict(replay, what="conversion of a floating constant in (-1, 0) to an unsigned type is "
-                               "rejected (C11 6.3.1.4: the value is 0)", theorem="C04.fold_float_to_int_model"),
-                          fid=FID_NEGFRAC)
-                stats["known:" + FID_NEGFRAC] = stats.get("known:" + FID_NEGFRAC, 0) + 1
-            else:
-                ck.violation(dict(replay, what="constant folded to a value C does not give"))
-                stats["violations"] += 1
+            ck.violation(dict(replay, what="constant folded to a value C does not give"))
+            stats["violations"] += 1
         else:
             ck.violation(dict(replay, what="compiler output satisfies C semantics but Model/Eval.lean does not "
                               "predict it", theorem="correspondence Model/Eval.lean ~ eval.c"), nofail=True)
